@@ -159,7 +159,13 @@ def run(rep, info, model, tier, seed):
     rest = ["text", "ping", "close", "bad", "badutf", "half", "silence", "longsilence", "eof", "oserr", "exc", "selexc", "hsrest", "pong"]
     for d in range(1, depth + 1):
         for seq in itertools.product(*([firsts] + [rest] * (d - 1))):
-            for appk, at in [("none", 0)] + [(k, i) for k in ("text", "close") for i in ((1, 2, 4) if tier == "quick" else (0, 1, 2, 3, 4, 5))]:
+            if tier == "quick":
+                grid = [("none", 0)] + [(k, i) for k in ("text", "close") for i in (1, 2, 4)]
+            elif d <= 3:
+                grid = [("none", 0)] + [(k, i) for k in ("text", "close") for i in (0, 1, 2, 3, 4, 5)]
+            else:
+                grid = [("none", 0), ("text", 2), ("close", 2), ("close", 3)]
+            for appk, at in grid:
                 scs.append(build(seq, {at: APP[appk]} if appk != "none" else {}))
     # connect failures
     for how in ("sockfail", "exc"):
@@ -193,7 +199,7 @@ def run(rep, info, model, tier, seed):
         rep.count("len", len(sc["_seq"]))
         rep.count("app_actions", len(sc.get("app", {})))
     fam.run_family(rep, model, "C07:server-steps-x-app-reactions", scs, oracle, project=lambda t: t,
-                   rule="exhaustive: server-step sequences up to depth %d over {handshake variants, text, ping, pong, close, reserved opcode, bad utf-8, half frame, silence, EOF, recv error, recv exception, selector exception} x application reaction {nothing, send_text, close} at one event; connect and request-write failures; plus %d random longer histories with timers; monitor automaton on the real event names; the full trace (events, writes, waits) is compared with the model" % (depth, nlong))
+                   rule="exhaustive: server-step sequences up to depth %d over {handshake variants, text, ping, pong, close, reserved opcode, bad utf-8, half frame, silence, EOF, recv error, recv exception, selector exception} x application reaction {nothing, send_text, close} at one event (depth 4: a reduced grid of reactions); connect and request-write failures; plus %d random longer histories with timers; monitor automaton on the real event names; the full trace (events, writes, waits) is compared with the model" % (depth, nlong))
     rep.exhaustive["server-step sequences up to depth %d" % depth] = True
     if not proof_ok and not rep.violations:
         rep.broken("proof obligation props/C07.v no longer checks: %s" % (rep.coq_failure,))
